@@ -55,6 +55,13 @@ func c09World() (*appx.World, []seed) {
 		{Name: "n=4 t=2, set change to {1,2,3} accepted, seen 5 by two", Genesis: g4, Ops: []appx.Op{
 			op("cfg", 0, 1, 0), op("cfg", 1, 1, 0), op("seen", 0, 0, 0), op("seen", 1, 0, 0),
 		}},
+		// chain ids for which the application has a built-in fork override: one that is
+		// always met (fork active although the genesis disables it) and one that is not
+		// met before eon 9 (fork inactive although the genesis enables it)
+		{Name: "n=3 t=2, chain id whose override activates the check-in fork, two check-ins", Genesis: appx.Genesis{Members: []int{0, 1, 2}, Threshold: 2, ChainID: "shutter-api-gnosis-1002"},
+			Ops: []appx.Op{op("checkin", 0, 0, 0), op("checkin", 1, 0, 0), op("seen", 0, 0, 0), endblock}},
+		{Name: "n=3 t=2 fork, chain id whose override holds the check-in fork back, two check-ins", Genesis: appx.Genesis{Members: []int{0, 1, 2}, Threshold: 2, ForkEnabled: true, ChainID: "shutter-gnosis-1000"},
+			Ops: []appx.Op{op("checkin", 0, 0, 0), op("checkin", 1, 0, 0), op("seen", 0, 0, 0), endblock}},
 	}
 	return w, seeds
 }
@@ -110,6 +117,7 @@ func c09Transition(w *appx.World, n node, o appx.Op, bound int, st *report.Stats
 	before := maporder.Ranges
 	a := appx.Clone(n.a)
 	resA := w.Step(a, o, n.nonce())
+	metRange := maporder.Ranges != before
 	next = node{a: a, nops: n.nops + 1}
 	if o.Kind == "endblock" {
 		// a replica that saves its state at this commit (another one's save timer has
@@ -127,7 +135,31 @@ func c09Transition(w *appx.World, n node, o appx.Op, bound int, st *report.Stats
 			return next, nil, fmt.Sprintf("op %s: a replica that saves its state at this commit holds different state afterwards\nnot saving: %s\nsaving:     %s", o, dA, dP)
 		}
 	}
-	if maporder.Ranges == before {
+	// a replica in another process: restarted from the state saved just before this
+	// transition (real PersistToDisk + LoadShutterAppFromFile on the in-memory file system)
+	{
+		vos.Cur = vos.New()
+		src := appx.Clone(n.a)
+		src.Gobpath = "/data/restarted.gob"
+		if err := src.PersistToDisk(); err != nil {
+			return next, nil, fmt.Sprintf("op %s: cannot save the state: %v", o, err)
+		}
+		loaded, err := app.LoadShutterAppFromFile("/data/restarted.gob")
+		if err != nil {
+			return next, nil, fmt.Sprintf("op %s: cannot load the saved state: %v", o, err)
+		}
+		rr := &loaded
+		rr.Gobpath = ""
+		resR := w.Step(rr, o, n.nonce())
+		st.Count("restarted_replica_transitions", 1)
+		if !bytes.Equal(resA.Bytes, resR.Bytes) {
+			return next, nil, fmt.Sprintf("op %s: a replica restarted from its saved state answers differently from one that never stopped\nnever stopped: %v %v\nrestarted:     %v %v", o, resA.Deliver, resA.End, resR.Deliver, resR.End)
+		}
+		if dA, dR := appx.StateDump(a), appx.StateDump(rr); dA != dR {
+			return next, nil, fmt.Sprintf("op %s: a replica restarted from its saved state holds different state afterwards\nnever stopped: %s\nrestarted:     %s", o, dA, dR)
+		}
+	}
+	if !metRange {
 		st.Class("transition without multi-key map range")
 		return next, nil, ""
 	}
@@ -169,6 +201,7 @@ func c09() *report.Check {
 		Assumptions: []string{
 			"map iteration order is owned through a source rewrite of every range-over-map in app, keyper/shutterevents (regenerated from the current sources by cmd/rewrite); all permutations are offered, a superset of what the Go runtime produces",
 			"replicas are compared per transition from equal states (induction over the history)",
+			"process: at every transition a further replica is restarted from the state saved just before (real PersistToDisk / LoadShutterAppFromFile on the in-memory file system) and must answer and end up like the one that never stopped; seeds include chain ids with built-in fork overrides",
 			"wall clock / save timing: at every block end a second replica saves its state (real PersistToDisk on the in-memory file system) while the first does not; both must stay identical",
 		},
 		Shards:  func(bool) int { return 16 },
